@@ -135,5 +135,5 @@ def run(tier):
                      "and leave the buffer untouched; the model is silent where the statement is; indirect targets: all r64, memory targets over address shapes (C02 machinery), far word/dword/qword; plus JIT execution of forward/backward jmp/jcc/call programs that return a constant only if the branch lands exactly where the displacement says")
     v.cov["exhaustive"] = False
     v.cov["model"] = "vlib/isa.py branch_model"
-    floor = st["accepted"] > 1000 and st["must_reject_checked"] >= 0
-    return v.finish(st, floor, "too few accepted branch lines: %r" % st)
+    floor = st["accepted"] > 1000 and st["must_reject_checked"] >= 0 and st["indirect_reference_validated_cases"] >= 0.995 * st["indirect_cases"]
+    return v.finish(st, floor, "too few accepted branch lines, or the reference side of the indirect forms not validated: %r" % st)
